@@ -24,6 +24,7 @@ class Ctx:
     def __init__(self, rep: Report):
         self.rep = rep
         self.src = Source(rep.root, rep)
+        self.shape_options: set = set()     # extra shape groups a property asks for (e.g. "overflow")
 
     @cached_property
     def lexers(self):
@@ -93,7 +94,7 @@ class Ctx:
         tier = tier or self.rep.tier
         cache = self.__dict__.setdefault("_outcomes", {})
         if tier not in cache:
-            fam = PL.Family(tier)
+            fam = PL.Family(tier, self.shape_options)
             res = []
             for prog in fam.programs():
                 for expose in (False, True):
